@@ -225,7 +225,12 @@ def c10(tapes, params):
         label, factory, E, selfdelim, init, path = catalogue(m, g)
         stats['machines'][label.split('/')[0]] = stats['machines'].get(label.split('/')[0], 0) + 1
         tail = bytes(g.draw(256, 'tb') for _ in range(g.choice([0, 1, 3, 9], 'tl')))
-        mode = g.weighted([(4, 'limit'), (3, 'repeat'), (2, 'plain'), (1, 'eof')], 'mode')
+        mode = g.weighted([(4, 'limit'), (3, 'repeat'), (2, 'plain'), (1, 'eof'), (3, 'both')], 'mode')
+        # counted repetition inside a limit is judged only for fixed-size elements (elementary types, octets,
+        # words): they accept neither an empty nor a truncated sentence, so "completed" means N whole elements
+        FIXED = ('USINT', 'SINT', 'UINT', 'INT', 'UDINT', 'DINT', 'ULINT', 'LINT', 'REAL', 'LREAL', 'BOOL', 'octets', 'words')
+        if mode == 'both' and label not in FIXED:
+            mode = 'repeat'
         n = len(E)
         wrap_kw = {}
         reps = 1
@@ -251,6 +256,14 @@ def c10(tapes, params):
             extra = g.choice([0, 0, 1], 'xtra')         # sometimes one more element than repeats follows
             stream = E * (reps + extra) + tail
             L = None
+        elif mode == 'both':
+            # a counted repetition inside a limit: [count elements] followed by a non-consuming
+            # transition to a terminal state, the whole bounded by a limit that may end on an element
+            # boundary before the count is reached
+            reps = g.choice([1, 2, 3, 5], 'R')
+            kcut = g.draw(reps + 2, 'kcut')
+            L = g.choice([kcut * n, kcut * n, max(kcut * n - 1, 0), kcut * n + 1], 'Lboth')
+            stream = E * (reps + 1) + tail
         else:
             stream = E + tail
             L = None
@@ -260,6 +273,10 @@ def c10(tapes, params):
             stats['eof_cases'] += 1
 
         def mk():
+            if mode == 'both':
+                rep = automata.dfa('rep', initial=factory(), repeat=reps)
+                rep[None] = automata.state('done', terminal=True)
+                return automata.dfa('lim', initial=rep, limit=L, terminal=True)
             return automata.dfa('lim', initial=factory(), terminal=True, **wrap_kw)
 
         eofmode = 'typeerror' if (mode == 'eof' and sch.draw(2, 'te')) else 'stop'
@@ -293,6 +310,14 @@ def c10(tapes, params):
                             label, L, wrap_kw['limit'], obs['sent'], stream.hex()[:80]), machine=label.split('/')[0])
                 else:
                     stats['limited_fail'] += 1
+            if mode == 'both' and ok:
+                stats['limited_ok'] += 1
+                if obs['sent'] > L:
+                    violation('c10-limit-exceeded', '%s x%d inside limit %d completed having consumed %d symbols' % (label, reps, L, obs['sent']),
+                              machine=label.split('/')[0])
+                if obs['sent'] != reps * n:
+                    violation('c10-repeat-count', '%s repeat=%d inside limit %d (element %d bytes): completed successfully after %d symbols = %s repetitions' % (
+                        label, reps, L, n, obs['sent'], obs['sent'] / float(n)), machine=label.split('/')[0], mode='both')
             # (c) repeat: exactly that many sub-sentences (self-delimiting elements, enough input)
             if mode == 'repeat' and selfdelim and label != 'Object.parser':
                 if ok:
@@ -362,6 +387,51 @@ def c20(tapes, params):
     def violation(cls, msg, **key):
         violations.append(dict(cls=cls, msg=str(msg)[:1500], key=key))
 
+    # ---- (0) the reference itself: the streaming oracle below trusts tnetstrings.dump/parse, so every
+    # run first checks that pair on values of all serialisable types (plain seeded input generation riding
+    # along -- no schedule is involved; see DESIGN 4/C20)
+    def gen_any(depth):
+        k = g.draw(10 if depth < 3 else 7, 'ak')
+        if k == 0:
+            return g.choice([0, -1, 7, 10 ** 25, -10 ** 19], 'ai') + g.draw(5, 'aj')
+        if k == 1:
+            return g.choice([0.0, -0.0, 0.5, 0.1 + 0.2, 2.3, 1e22, 1e16, 1.5e-05, 1e-10, -1.234e-05, 3.141592653589793e-7,
+                             1e300, 5e-324, float('inf'), -2.5e-9], 'af')
+        if k == 2:
+            return bool(g.draw(2, 'ab'))
+        if k == 3:
+            return None
+        if k == 4:
+            return g.choice([b'', b'3:abc,', b':', b'}]', b'\x00\xff', b'12:'], 'aby')
+        if k in (5, 6):
+            return g.choice(['', 'text', 'h\u00e9llo', '\u65e5\u672c', 'a:b,c'], 'at')
+        if k in (7, 8):
+            return [gen_any(depth + 1) for _ in range(g.draw(4, 'aln'))]
+        return {g.choice(['k', 'key2', 'a b', '9'], 'dk') + str(i): gen_any(depth + 1) for i in range(g.draw(3, 'adn'))}
+
+    def same(a, b):
+        if type(a) is not type(b):
+            return False
+        if isinstance(a, float):
+            return repr(a) == repr(b)
+        if isinstance(a, list):
+            return len(a) == len(b) and all(same(x, y) for x, y in zip(a, b))
+        if isinstance(a, dict):
+            return sorted(a) == sorted(b) and all(same(a[x], b[x]) for x in a)
+        return a == b
+    for _ in range(g.between(1, 6, 'nany')):
+        v = gen_any(0)
+        try:
+            e = tns.dump(v)
+            back, rest = tns.parse(e)
+        except Exception as exc:        # noqa: BLE001
+            violation('c20-reference-roundtrip', 'tnetstrings dump/parse raised %s for %r' % (exc, v))
+            continue
+        stats['reference_values'] = stats.get('reference_values', 0) + 1
+        if rest != b'' or not same(back, v):
+            violation('c20-reference-roundtrip', 'tnetstrings.parse(dump(%r)) == %r (rest %r): the serialised form was %r' % (v, back, rest, e[:80]),
+                      vtype=type(v).__name__)
+
     # ---- (a) STREAM: tnet_machine on a scheduled chunk arrival, one value after another + tail
     nvals = g.between(1, params.get('max_values', 10), 'nvals')
     vals = [gen_tnet_value(g, i) for i in range(nvals)]
@@ -424,7 +494,7 @@ def c20(tapes, params):
             for msg in tnet.tnet_from(conn, addr, timeout=timeout, latency=latency, ignore=ignore):
                 got.append(msg)
                 times.append(s.now)
-                if len(got) > 4000:
+                if len(got) > 60000:
                     break
         except Exception as exc:        # noqa: BLE001
             state['err'] = '%s: %s' % (type(exc).__name__, exc)
@@ -442,7 +512,7 @@ def c20(tapes, params):
             if last and cut_last and len(e) > 1:
                 e = e[:1 + sch.draw(len(tns.dump(v)) - 1, 'cutat')]
                 stats['eof_mid_message'] += 1
-            parts, cm = chunkings(sch, e)
+            parts, cm = chunkings(sch, e, 'random' if len(e) > 300 else None)
             for p in parts:
                 if p:
                     c.send(p)
